@@ -374,9 +374,12 @@ def run(tier, seed, replay=None):
                 "checked; non-trivial = pool of a value with >= 2 boxes / objects / terms; distinct "
                 "by (kind, family, token form of the value)")
     rep.partial = [
-        "`repr` determines the value: proved on the printed SYNTAX TREE (repr_inj_partial & co); the "
-        "string-level statement ReprStringInj is reduced to RenderDeterminesTree (token hygiene) and "
-        "left unproved — `eval(repr(v)) == v` is executed by the oracle on every generated value",
+        "`repr` determines the value up to ==: proved on the printed STRING (repr_inj, val_/sum_/"
+        "reprBox_/reprTy_inj) under the explicit token-hygiene hypothesis TokensSafe (name and data "
+        "tokens non-empty and free of , ( ) [ ] = : identifier-like strings, ints, floats); for "
+        "list-/dict-valued data only the syntax-tree statement repr_inj_tree is proved "
+        "(ReprInjAnyData is an unproved def); that Python's eval rebuilds an equal value is runtime "
+        "behaviour — `eval(repr(v)) == v` is executed by the oracle on every generated value",
         "bubbles and cat.Arrow values are checked by the oracle on the real code only (no model)",
     ]
     rep.assumptions = [
